@@ -39,6 +39,9 @@ pub struct CrashOpts {
     pub max_points: usize,
     pub seed: u64,
     pub deadline: Duration,
+    /// at crash points that leave the complete head (but not the last frame) of a multi-frame
+    /// append: complete it with an append of exactly the missing size, then retype that frame
+    pub glue: bool,
 }
 
 /// Runs `f` on a fresh thread; `None` if it does not finish before the deadline (the thread is
@@ -89,11 +92,29 @@ fn step_order(step: usize) -> i64 {
 
 /// The continuation run on a recovered log: one append on every existing queue of the script,
 /// one truncate, then a clean restart. Returns the trace lines.
-fn continuation(script: &Script, dir: &TempDir, log: mrecordlog::MultiRecordLog, seed: u64) -> Vec<Value> {
+fn continuation(
+    script: &Script,
+    dir: &TempDir,
+    log: mrecordlog::MultiRecordLog,
+    seed: u64,
+    glue: Option<(usize, usize)>,
+) -> (Vec<Value>, Option<(u64, u64)>) {
     let mut lines = Vec::new();
     let mut log = Some(log);
     let mut state = seed;
     let mut steps: Vec<Step> = Vec::new();
+    let mut glue_frame: Option<(u64, u64)> = None;
+    // "glue" continuation: the recovered log ends with the dangling head of the in-flight entry;
+    // the first append is sized so that head + this entry are exactly as long as the torn entry
+    if let Some((q, len)) = glue {
+        if log.as_ref().unwrap().queue_exists(&script.queues[q]) {
+            steps.push(Step::Append {
+                q,
+                pos: None,
+                batch: vec![Payload { seed: seed ^ 0x61ce, len, embed: None }],
+            });
+        }
+    }
     {
         let log_ref = log.as_ref().unwrap();
         let mut first_existing = None;
@@ -149,6 +170,16 @@ fn continuation(script: &Script, dir: &TempDir, log: mrecordlog::MultiRecordLog,
         }
         let (res, kind) = apply_step(script, log.as_mut().unwrap(), step);
         let events = verif::take_events();
+        if idx == 0 && glue.is_some() && glue_frame.is_none() {
+            for event in &events {
+                if let verif::IoEvent::BufWrite { file, offset, bytes, .. } = event {
+                    if bytes.len() >= 7 && bytes[6] == 1 {
+                        glue_frame = Some((*file, *offset));
+                        break;
+                    }
+                }
+            }
+        }
         lines.push(begin);
         if kind == "panic" || kind == "io" {
             lines.push(json!({"ev": "end", "i": 1000 + idx, "res": res, "io": io_json(&events)}));
@@ -157,7 +188,7 @@ fn continuation(script: &Script, dir: &TempDir, log: mrecordlog::MultiRecordLog,
         let st = observe(script, log.as_ref().unwrap(), &dir.path, seed ^ idx as u64);
         lines.push(json!({"ev": "end", "i": 1000 + idx, "res": res, "st": st, "io": io_json(&events), "ent": crate::exec::entries_json(script, &events)}));
     }
-    lines
+    (lines, glue_frame)
 }
 
 pub struct Recovery {
@@ -183,6 +214,25 @@ pub fn recover(
     deadline: Duration,
 ) -> Recovery {
     recover_with(script, files, &[], cont, seed, deadline)
+}
+
+/// As `recover`, with a continuation whose first append is sized to complete the dangling head of
+/// the in-flight entry, followed by a retyping (Full -> Last) of that append's frame at rest.
+pub fn recover_glue(
+    script: &Arc<Script>,
+    files: &BTreeMap<u64, FileImg>,
+    seed: u64,
+    deadline: Duration,
+    glue: (usize, usize),
+) -> Recovery {
+    GLUE.with(|cell| cell.set(Some(glue)));
+    let recovery = recover_with(script, files, &[], true, seed, deadline);
+    GLUE.with(|cell| cell.set(None));
+    recovery
+}
+
+thread_local! {
+    static GLUE: std::cell::Cell<Option<(usize, usize)>> = const { std::cell::Cell::new(None) };
 }
 
 /// A directory entry that is not one of the image's WAL files.
@@ -225,6 +275,7 @@ pub fn recover_with(
     let script_in = script.clone();
     let files_in = files.clone();
     let extras_in = extras.to_vec();
+    let glue = GLUE.with(|cell| cell.get());
     let result = with_deadline(deadline, move || {
         let script = script_in;
         let dir = TempDir::new();
@@ -265,7 +316,38 @@ pub fn recover_with(
                 // recoveries produce equal continuations (and can be grouped)
                 let cont_seed = crate::script::digest(st["qs"].to_string().as_bytes()) as u64;
                 let cont_lines = if cont {
-                    continuation(&script, &dir, log, cont_seed)
+                    let (mut lines, glue_frame) = continuation(&script, &dir, log, cont_seed, glue);
+                    if let Some((file, offset)) = glue_frame {
+                        // at rest: retype the frame of the completing append, Full -> Last
+                        let mut image = Image::from_dir(&dir.path);
+                        if let Some(img) = image.files.get_mut(&file) {
+                            if (offset as usize + 6) < img.data.len() && img.data[offset as usize + 6] == 1 {
+                                img.data[offset as usize + 6] = 4;
+                                let dir2 = TempDir::new();
+                                Image::materialize(&image.files, &dir2.path);
+                                let reopened = open_log(&dir2.path, &script.policy);
+                                verif::take_events();
+                                let mut line = json!({
+                                    "ev": "damage", "cls": "hdr", "ops": [{"k": "retype", "f": file, "o": offset, "n": 4}],
+                                    "hit": {"entry": 0, "kind": "none", "q": -1, "first": -1, "n": 0, "step": -1, "ftype": 1},
+                                    "n": 1, "out": "err", "errtext": "", "accpanic": 0, "peak": 0, "allocok": 1, "ncont": 0,
+                                    "glue": 1,
+                                });
+                                match reopened {
+                                    Ok(log2) => {
+                                        line["out"] = json!("ok");
+                                        line["st"] = observe(&script, &log2, &dir2.path, seed);
+                                    }
+                                    Err(err) => {
+                                        line["out"] = json!(if err == "panic" { "panic" } else { "err" });
+                                        line["errtext"] = json!(err);
+                                    }
+                                }
+                                lines.push(line);
+                            }
+                        }
+                    }
+                    lines
                 } else {
                     Vec::new()
                 };
@@ -311,6 +393,12 @@ fn group_key(recovery: &Recovery) -> String {
         key.push_str(&qs.to_string());
     }
     for line in &recovery.cont {
+        if line["ev"] == "damage" {
+            key.push_str(&format!("dmg:{}", line["out"]));
+            if let Some(qs) = line.get("st").and_then(|st| st.get("qs")) {
+                key.push_str(&qs.to_string());
+            }
+        }
         if line["ev"] == "end" {
             key.push_str(&line["res"].to_string());
             if let Some(qs) = line.get("st").and_then(|st| st.get("qs")) {
@@ -338,6 +426,75 @@ pub struct CrashStats {
     pub depth2_points: usize,
     pub not_ok: usize,
     pub timeouts: usize,
+    pub glue_points: usize,
+}
+
+/// For a crash point inside an append whose entry spans several frames: (queue, payload length of
+/// an append that supplies exactly the bytes of the entry that did not reach the OS), provided
+/// every frame that reached the OS did so completely and the last frame did not.
+fn glue_hint(record: &RunRecord, effects: &[TaggedEff], k: usize) -> Option<(usize, usize)> {
+    if k == 0 || k >= effects.len() || effects[k - 1].step != effects[k].step {
+        return None;
+    }
+    let step_idx = effects[k].step;
+    if step_idx == INIT_STEP {
+        return None;
+    }
+    let (q, batch) = match &record.script.steps[step_idx] {
+        Step::Append { q, batch, .. } => (*q, batch),
+        _ => return None,
+    };
+    let step = record.steps.iter().find(|step| step.idx == step_idx)?;
+    // OS watermark per file after the first k effects
+    let mut watermark: BTreeMap<u64, u64> = BTreeMap::new();
+    for eff in &effects[..k] {
+        if let OsEff::Write { file, off, bytes } = &eff.eff {
+            let end = off + bytes.len() as u64;
+            let mark = watermark.entry(*file).or_insert(0);
+            *mark = (*mark).max(end);
+        }
+    }
+    let qlen = record.script.queues[q].len();
+    let entry_len: usize = 11 + qlen + batch.iter().map(|payload| 12 + payload.len).sum::<usize>();
+    let mut present = 0usize;
+    let mut frames_present = 0usize;
+    let mut saw_last = false;
+    for event in &step.events {
+        if let verif::IoEvent::BufWrite { file, offset, bytes, .. } = event {
+            if bytes.len() < 7 {
+                continue;
+            }
+            let frame_type = bytes[6];
+            if frames_present == 0 && frame_type != 2 {
+                return None; // single-frame entry (Full), or not the own entry
+            }
+            let end = offset + bytes.len() as u64;
+            let mark = watermark.get(file).copied().unwrap_or(0);
+            if end <= mark {
+                present += bytes.len() - 7;
+                frames_present += 1;
+                if frame_type == 4 {
+                    saw_last = true;
+                }
+            } else if *offset < mark {
+                return None; // torn frame
+            } else {
+                break;
+            }
+            if frame_type == 4 {
+                break;
+            }
+        }
+    }
+    if frames_present == 0 || saw_last || present >= entry_len {
+        return None;
+    }
+    let missing = entry_len - present;
+    let overhead = 11 + qlen + 12;
+    if missing < overhead || missing > 32_000 {
+        return None;
+    }
+    Some((q, missing - overhead))
 }
 
 fn tear_offsets(bytes_len: usize, piece_bounds: &[usize], tears: Tears, state: &mut u64) -> Vec<usize> {
@@ -485,7 +642,18 @@ pub fn expand(record: &RunRecord, opts: &CrashOpts) -> (Vec<CrashLine>, CrashSta
         }
         for (model, variant, files) in images {
             let seed = splitmix(&mut state);
-            let recovery = recover(&script, &files, opts.cont, seed, opts.deadline);
+            let hint = if opts.glue && opts.cont && model == "process" && tear.is_none() {
+                glue_hint(record, &effects, k)
+            } else {
+                None
+            };
+            let recovery = match hint {
+                Some(glue) => {
+                    stats.glue_points += 1;
+                    recover_glue(&script, &files, seed, opts.deadline, glue)
+                }
+                None => recover(&script, &files, opts.cont, seed, opts.deadline),
+            };
             stats.opens += 1;
             if recovery.out != "ok" {
                 stats.not_ok += 1;
